@@ -232,7 +232,12 @@ class Model():
 
     def remove_attacker(self, attacker: AttackerAttachment) -> None:
         """Remove attacker"""
-        self.attackers.remove(attacker)
+        if not _contains(self.attackers, attacker):
+            raise ValueError(
+                f'Attacker "{attacker.name}" is not part of model '
+                f'"{self.name}".'
+            )
+        self.attackers = _without(self.attackers, attacker)
 
     def remove_asset(self, asset: SchemaGeneratedClass) -> None:
         """Remove an asset from the model.
